@@ -48,7 +48,7 @@ CHECKS["C11"] = dict(
              "heap buffers of exactly the declared extent (scratch exactly *_tmp_bytes, opaque objects exactly bytes_of_*), with "
              "every buffer at each 8-byte offset and three prefill patterns: a sanitizer report or signal (fork-isolated and attributed "
              "to the case), a changed byte outside the written extent, or an output that differs between prefills/offsets is a "
-             "violation; every new_*/delete_* pair is run at every m = 1..65536 under a wrapped allocator and must leave no live block. Additional layers: wide shapes (limb / row counts up to 2049), N = 65536, bulk outputs (16 MiB and more), huge strides for every strided entry point (sparse PROT_NONE reservations: only the declared limbs are accessible), large sizes of the exported kernels, one array passed as two read-only operands.",
+             "violation; every new_*/delete_* pair is run at every m = 1..65536 under a wrapped allocator and must leave no live block. Additional layers: wide shapes (limb / row counts up to 2049), N = 65536, bulk outputs (16 MiB and more), huge strides for every strided entry point (sparse PROT_NONE reservations: only the declared limbs are accessible), large sizes of the exported kernels, one array passed as two read-only operands. The constructor environment also varies the content of freed blocks (an object used after a sibling was deleted must not notice); a crash of the library while a case generator calls it, or a worker dying between two cases (heap corruption), is attributed and reported.",
         note="Trusts ASan's red zones (8-byte granularity, which is why offsets are multiples of 8) and the declared extents of "
              "DESIGN.md appendix A; bounded shape boxes.",
 )
@@ -144,7 +144,7 @@ CHECKS["C14"] = dict(
              "values up to 2^50; double -> int64 (reference, fast, wide) on a boundary alphabet of every binade up to the domain limit (mantissas "
              "1, 1+ulp, 1.25, 1.5-ulp, 1.5, 1.5+ulp, 2-ulp; k+1/2 +- ulp; domain edge) for every divisor 2^0..2^40 with the verdict |out - x/d| <= 1/2 "
              "evaluated exactly; complex -> torus32 and double -> torus double likewise for every log2overhead 0..48; every m = 1..64 and every "
-             "dispatch configuration through the constructor API and the *_simple forms. The double -> int64 conversions are also run in place (r == x, as the inverse DFT of the module calls them) with the vector at every 8-byte alignment modulo 32.",
+             "dispatch configuration through the constructor API and the *_simple forms. The double -> int64 conversions are also run in place (r == x, as the inverse DFT of the module calls them) with the vector at every 8-byte alignment modulo 32. Every conversion is also run once with its input, and once with its output, ending exactly where the mapped memory ends.",
         note="Only the int32 sweep is exhaustive over values; the double domains are covered by a structured boundary alphabet per binade, not by "
              "all doubles.",
 )
@@ -158,7 +158,7 @@ CHECKS["C17"] = dict(
              "run for every m = 4..65536 through the precomp API, the *_simple API and both kernels and must be the identity on all m numbers; "
              "reim4 dot products (every row count), windowed convolutions (complete small box) and the 14 pointwise mul/addmul kernels (every m "
              "from the kernel minimum, signed zeros and 2^+-300 included) are compared with the complex-arithmetic definition in binary128 "
-             "within the standard a-priori rounding bound.",
+             "within the standard a-priori rounding bound. Pointwise products are also run with the result vector being one of the operands (r == a, r == b, r == a == b) against the exact product of the original values.",
         note="Floating-point inputs are a structured value set, not all doubles; the bound gamma_k*sum|terms| holds for every IEEE evaluation order.",
 )
 
@@ -216,7 +216,7 @@ CHECKS["C15"] = dict(
              "point on FFT64 and NTT120 modules, and table-based kernels. Each function family is searched to its fixed point and all "
              "cross-family sequences up to depth 2 (quick) / 3 (thorough) are executed; on every transition the outputs must be bit-identical to "
              "the outputs of the same call in the initial state and to the same operation through freshly built explicit tables. In addition "
-             "every entry-point and kernel case is run 8 times with rotating buffer offsets 0..56 and three prefills of outputs and scratch. Part 2 also packs all operands back to back in one block (ascending and descending): the relative placement of the buffers is not an argument. Freed blocks read 0xDD during the hidden-state exploration and constructor ops exist at half / equal / double the dimension of live modules (a result must not depend on the lifetime of another object).",
+             "every entry-point and kernel case is run 8 times with rotating buffer offsets 0..56 and three prefills of outputs and scratch. Part 2 also packs all operands back to back in one block (ascending and descending): the relative placement of the buffers is not an argument. Freed blocks read 0xDD during the hidden-state exploration and constructor ops exist at half / equal / double the dimension of live modules (a result must not depend on the lifetime of another object). Address reuse by the allocator, module tours (create, run the element-wise entry points, delete) at N = 8, 16, 32 and objects with overlapping lifetimes are part of the op alphabet; the constructor environment also varies the content of freed blocks.",
         note="Depth-bounded across families (state equality prunes re-expansion); the state is what the process image shows (no CPU control "
              "registers); inputs of each op are fixed deterministic vectors.",
 )
@@ -233,7 +233,7 @@ CHECKS["C12"] = dict(
              "number of threads. Engine C runs pairs (triples in the thorough tier) of real calls under a serialising scheduler and enumerates every "
              "schedule with at most 2 (3) preemptions over ~80 interposed library-internal call boundaries; each call must return bit for bit what it "
              "returns alone and leave the hidden state unchanged; a replayed schedule must reproduce its call sequence. The same bodies run free on "
-             "16 threads under ThreadSanitizer. Freed blocks read 0xDD and constructor ops exist at half / equal / double the dimension of live modules: creating or deleting one object must not write or release memory of another.",
+             "16 threads under ThreadSanitizer. Freed blocks read 0xDD and constructor ops exist at half / equal / double the dimension of live modules: creating or deleting one object must not write or release memory of another. The wrapped allocator hands a freed block out again to the next request of the same size (address reuse); constructor ops include module tours and objects with overlapping lifetimes; scenario S5 replaces a module by one of another dimension at the same address between two calls of a long-lived thread, whose results must equal those of a thread that never saw the first module.",
         note="*_simple functions are judged under their documented warm-up protocol; concurrent first use is only the detector's self-test. "
              "Engine C sees interleavings at call boundaries only and is bounded in threads and preemptions; the reduction argument of Engine B "
              "covers the rest provided the library stays free of synchronisation (reported as reduction_exact).",
